@@ -181,7 +181,8 @@ func runC01(r *Run) {
 	// --- C01.lookup
 	r.checkLookup(P)
 
-	// --- C01.create.order (shared with C02)
+	// --- C01.create.order (shared with C02): creates are first ordered chronologically, then published-first
+	r.checkChrono(P, "sortOperations@processor", r.fn(P, pkgProcessor, "sortOperations"))
 	r.checkCreateOrder(P)
 }
 
